@@ -328,8 +328,10 @@ func visitInstr(fr *frame, instr ssa.Instruction) continuation {
 
 	case *ssa.Range:
 		it := rangeIter(fr.get(instr.X), instr.X.Type())
-		if sm, ok := it.(*sortedMapIter); ok && strings.HasPrefix(pkgPathOf(fr.fn), "github.com/terra-money/alliance") {
-			// a range over a map inside the repository: a nondeterminism site
+		if sm, ok := it.(*sortedMapIter); ok && (strings.HasPrefix(pkgPathOf(fr.fn), "github.com/terra-money/alliance") ||
+			pkgPathOf(fr.fn) == "golang.org/x/exp/maps" || pkgPathOf(fr.fn) == "maps") {
+			// a range over a map inside the repository, or inside the map helpers (maps.Keys/Values, which
+			// hand the map's iteration order to their caller): a nondeterminism site
 			fr.i.eng.NondetSites["range-over-map in "+fr.fn.String()]++
 			if fr.i.eng.SymMapOrder && len(sm.keys) >= 2 {
 				sm.permute(fr.i.eng.choose(factorial(len(sm.keys)), nil, "map iteration order in "+fr.fn.String()))
